@@ -58,6 +58,24 @@ func restoreIndex(rootGoitPath, path string, index *store.Index, tree *object.Tr
 	return nil
 }
 
+// stagedPathsUnderDirectory returns the paths beneath dirName which are in the index or in the HEAD commit
+func stagedPathsUnderDirectory(dirName string, index *store.Index, tree *object.Tree) []string {
+	var paths []string
+	for _, entry := range index.GetEntriesByDirectory(dirName) {
+		paths = append(paths, string(entry.Path))
+	}
+	if node, isNodeFound := object.GetNode(tree.Children, dirName); isNodeFound && len(node.Children) > 0 {
+		for _, path := range node.GetPaths() {
+			// GetPaths returns the paths which start with the node name
+			path = strings.TrimSuffix(dirName, node.Name) + path
+			if _, _, isRegistered := index.GetEntry([]byte(path)); !isRegistered {
+				paths = append(paths, path)
+			}
+		}
+	}
+	return paths
+}
+
 func restoreWorkingDirectory(rootGoitPath, path string, index *store.Index) error {
 	_, entry, isEntryFound := index.GetEntry([]byte(path))
 	if !isEntryFound {
@@ -147,24 +165,17 @@ var restoreCmd = &cobra.Command{
 				}
 				f, err := os.Stat(argAbsPath)
 				if err != nil { // even if the file is not found, the file might be the deleted file
-					// get node
 					cleanedArg := filepath.Clean(arg)
 					cleanedArg = strings.ReplaceAll(cleanedArg, `\`, "/")
-					node, isNodeFound := object.GetNode(tree.Children, cleanedArg)
-					if !isNodeFound {
-						return fmt.Errorf("error: pathspec '%s' did not match any file(s) known to goit", arg)
-					}
 
-					// check if the arg is dir or not
-					if len(node.Children) > 0 { // node is directory
-						paths := node.GetPaths()
-
+					// a deleted directory is known by the paths beneath it in the index or in the HEAD commit
+					if paths := stagedPathsUnderDirectory(cleanedArg, client.Idx, tree); len(paths) > 0 {
 						for _, path := range paths {
 							if err := restoreIndex(client.RootGoitPath, path, client.Idx, tree); err != nil {
 								return err
 							}
 						}
-					} else { // node is a file
+					} else { // a deleted file; restoreIndex refuses the path known to neither
 						if err := restoreIndex(client.RootGoitPath, cleanedArg, client.Idx, tree); err != nil {
 							return err
 						}
@@ -179,19 +190,7 @@ var restoreCmd = &cobra.Command{
 
 					// targets are the paths under the directory which are in the index or in the HEAD commit
 					// untracked files in the working tree are ignored
-					var paths []string
-					for _, entry := range client.Idx.GetEntriesByDirectory(cleanedArg) {
-						paths = append(paths, string(entry.Path))
-					}
-					if node, isNodeFound := object.GetNode(tree.Children, cleanedArg); isNodeFound && len(node.Children) > 0 {
-						for _, path := range node.GetPaths() {
-							// GetPaths returns the paths which start with the node name
-							path = strings.TrimSuffix(cleanedArg, node.Name) + path
-							if _, _, isRegistered := client.Idx.GetEntry([]byte(path)); !isRegistered {
-								paths = append(paths, path)
-							}
-						}
-					}
+					paths := stagedPathsUnderDirectory(cleanedArg, client.Idx, tree)
 					if len(paths) == 0 {
 						return fmt.Errorf("error: pathspec '%s' did not match any file(s) known to goit", arg)
 					}
